@@ -3,6 +3,7 @@
 From Verif Require Import Base.Util Model.Types Model.Outcome Model.Validate Model.OutcomeCase Model.Observation
   Proofs.OutcomeProofs Proofs.ObservationProofs Proofs.ObsValidProofs Proofs.ValidateProofs Gen.Generated.
 From Verif Require Model.Reports Proofs.ReportsProofs.
+From Verif Require Model.Wire Proofs.WireLenProofs.
 Open Scope N_scope.
 
 (* Every outcome computed from attributed observations (whatever they are: the invalid ones are
@@ -92,6 +93,61 @@ Theorem C03_gen_limits :
   MaxObservationLength = 1000000%Z /\ MaxOutcomeLength = 2500000%Z /\ MaxReportCount = 100%Z.
 Proof. repeat split; reflexivity. Qed.
 Print Assumptions C03_gen_limits.
+
+(* "... and within the advertised maximum outcome length": the byte-exact wire encoding (Model/Wire.v; equal to
+   AutomationOutcome.Encode() byte for byte on every C15 correspondence case) of an outcome with at most 100 agreed
+   performables and 20 rounds of at most 50 proposals is at most MaxOutcomeLength (read from the source: 2,500,000)
+   bytes, PROVIDED every number is inside its Go type's range, hashes and ids are 32 bytes, work ids are hexadecimal
+   strings of at most 64 characters (what the real generator produces), prices are in the uint256 range and perform
+   data is at most 10,000 bytes (the well-behaved-pipeline hypothesis of the property; validation itself does not
+   bound perform data).  The bound reached is 2,381,012. *)
+Theorem C03_outcome_len :
+  forall o : Wire.wout,
+    WireLenProofs.outcome_sizes_ok WireLenProofs.pd_max o ->
+    (Z.of_nat (length (Wire.enc_outcome o)) <= MaxOutcomeLength)%Z.
+Proof. exact WireLenProofs.outcome_fits. Qed.
+Print Assumptions C03_outcome_len.
+
+(* the general bound, for any cap pd on the perform data *)
+Theorem C03_outcome_len_bound :
+  forall pd (o : Wire.wout),
+    WireLenProofs.outcome_sizes_ok pd o -> (length (Wire.enc_outcome o) <= WireLenProofs.outcome_bound pd)%nat.
+Proof. exact WireLenProofs.len_outcome. Qed.
+Print Assumptions C03_outcome_len_bound.
+
+(* non-vacuity of the size hypothesis: an outcome with one agreed log-trigger result and one surfaced proposal *)
+Example C03_len_example_hash : WireLenProofs.hash_ok (repeat 7%N 32).
+Proof.
+  split; [apply repeat_length|]. apply Forall_forall. intros x Hx. apply repeat_spec in Hx. subst. lia.
+Qed.
+Example C03_len_example_wid : WireLenProofs.wid_ok (repeat 97%N 64).
+Proof. split; [rewrite repeat_length; lia | vm_compute; reflexivity]. Qed.
+
+Example C03_outcome_len_nonvacuous :
+  let h := repeat 7%N 32 in
+  let ext := Wire.mkWExt h 3 h 99 in
+  let tr := Wire.mkWTrig 100 h (Some ext) in
+  let wid := repeat 97%N 64 in
+  let r := Wire.mkWRes 0 false true 0 h tr wid 5000000 (Some (repeat 1%N 100)) (Some 1000%Z) (Some 2000%Z) in
+  let o := Wire.mkWOut (Some [r]) (Some [Some [Wire.mkWProp h tr wid]; None]) in
+  WireLenProofs.outcome_sizes_ok WireLenProofs.pd_max o /\ length (Wire.enc_outcome o) = 1284%nat.
+Proof.
+  intros h ext tr wid r o.
+  assert (WireLenProofs.trig_ok tr) as Htr.
+  { unfold WireLenProofs.trig_ok, WireLenProofs.ext_ok, WireLenProofs.u64. cbn [Wire.wt_num Wire.wt_hash Wire.wt_ext tr ext Wire.we_txhash Wire.we_index Wire.we_blockhash Wire.we_blocknum].
+    repeat split; try apply C03_len_example_hash; lia. }
+  split; [|vm_compute; reflexivity].
+  unfold WireLenProofs.outcome_sizes_ok. cbn [Wire.wc_agreed Wire.wc_surfaced o]. split.
+  - split; [cbn; lia|]. constructor; [|constructor].
+    unfold WireLenProofs.res_ok, WireLenProofs.u64, WireLenProofs.price_ok.
+    cbn [r Wire.wr_state Wire.wr_reason Wire.wr_upk Wire.wr_trig Wire.wr_wid Wire.wr_gas Wire.wr_pdata Wire.wr_fgw Wire.wr_ln].
+    repeat split; try apply C03_len_example_hash; try apply C03_len_example_wid; try exact Htr; try lia.
+    rewrite repeat_length. unfold WireLenProofs.pd_max. lia.
+  - split; [cbn; lia|]. constructor; [|constructor; [exact I|constructor]].
+    split; [cbn; lia|]. constructor; [|constructor].
+    unfold WireLenProofs.prop_ok. cbn [Wire.wp_upk Wire.wp_trig Wire.wp_wid]. repeat split; try apply C03_len_example_hash; try apply C03_len_example_wid; exact Htr.
+Qed.
+
 
 Example C03_nonvacuous :
   outcome_rules (fun _ => 0) (fun u _ => u) (mkOut [] []) /\ enough 1 3 = true /\ enough 1 2 = false.
